@@ -9,8 +9,12 @@ def main():
     ids = [json.loads(l)["id"] for l in open(os.path.join(core.VERIF, "properties.jsonl")) if l.strip()]
     claimed = {}
     for pid in setup.all_ids():
-        m = importlib.import_module("checks." + pid)
-        if getattr(m, "CLAIMED", True):
+        try:
+            m = importlib.import_module("checks." + pid)
+        except Exception as e:
+            print(f"WARNING: checks/{pid}.py does not load: {e}")
+            continue
+        if getattr(m, "CLAIMED", True) and hasattr(m, "SPEC"):
             claimed[pid] = m.SPEC
     pending = {}
     pp = os.path.join(core.VERIF, "not_applicable.json")
